@@ -67,6 +67,9 @@ package analysis
 //@   loop range:node.Args exits-early-only-if [every-argument-is-walked] false
 //@   loop range:node.Args step [every-argument-is-walked] hits("cgExp#1") == prev(hits("cgExp#1")) + 1
 //@   at call cgExp#1 before assert[argument-is-walked] arg1 == arg
+// the argument loop is reached on every path (no return in front of it - seed C11-required-call-arguments-not-walked) and runs to the end
+//@   loop range:node.Args invariant hits("cgExp#1") == rangeindex + 1 && rangeindex + 1 <= len(node.Args)
+//@   ensures[all-arguments-are-walked] hits("cgExp#1") == len(node.Args)
 //@ end
 //@ func (*Analysis).cgFuncCallStat
 //@   props C06 C07 C11 C20 C05 C14
@@ -75,6 +78,9 @@ package analysis
 //@   loop range:node.Args exits-early-only-if [every-argument-is-walked] false
 //@   loop range:node.Args step [every-argument-is-walked] hits("cgExp#1") == prev(hits("cgExp#1")) + 1
 //@   at call cgExp#1 before assert[argument-is-walked] arg1 == argExp
+// the argument loop is reached on every path (no return in front of it - seed C11-required-call-arguments-not-walked) and runs to the end
+//@   loop range:node.Args invariant hits("cgExp#1") == rangeindex + 1 && rangeindex + 1 <= len(node.Args)
+//@   ensures[all-arguments-are-walked] hits("cgExp#1") == len(node.Args)
 //@ end
 
 // table constructor: every value, and every non-nil key
@@ -105,6 +111,8 @@ package analysis
 //@   loop range:node.Stats exits-early-only-if [every-statement-is-walked] false
 //@   loop range:node.Stats step [every-statement-is-walked] hits("cgStat#0") == prev(hits("cgStat#0")) + 1
 //@   at call cgStat#0 before assert[statement-is-walked] arg1 == stat
+//@   loop range:node.Stats invariant hits("cgStat#0") == rangeindex + 1 && rangeindex + 1 <= len(node.Stats)
+//@   ensures[all-statements-are-walked] hits("cgStat#0") == len(node.Stats)
 //@   ensures[return-expressions-are-walked] node.RetExps != nil ==> hits("cgRetStat#0") == 1
 //@   at call cgRetStat#0 before assert[return-expressions-are-walked] arg1 == node.RetExps
 //@ end
@@ -113,6 +121,8 @@ package analysis
 //@   loop range:exps exits-early-only-if [every-return-expression-is-walked] false
 //@   loop range:exps step [every-return-expression-is-walked] hits("cgExp#0") == prev(hits("cgExp#0")) + 1
 //@   at call cgExp#0 before assert[return-expression-is-walked] arg1 == exp
+//@   loop range:exps invariant hits("cgExp#0") == rangeindex + 1 && rangeindex + 1 <= len(exps)
+//@   ensures[all-return-expressions-are-walked] hits("cgExp#0") == len(exps)
 //@ end
 //@ func (*Analysis).cgStat
 //@   props C06 C07 C11 C20 C05 C14
